@@ -123,7 +123,11 @@ def check(F, R, Gm):
                ("-2(x + 1)", ("un", "Neg", ("bin", "Mul", N(2), ("bin", "Add", L("x"), N(1))))), ("(a)(b)c", ("bin", "Mul", ("bin", "Mul", L("a"), L("b")), L("c"))),
                ("-(2 + x)", ("un", "Neg", ("bin", "Add", N(2), L("x")))), ("y * -(1.5 - x)", ("bin", "Mul", L("y"), ("un", "Neg", ("bin", "Sub", N(1.5), L("x"))))), ("-(2 * x)", ("un", "Neg", ("bin", "Mul", N(2), L("x")))),
                ("not (a and b)", ("un", "Not", ("bin", "And", L("a"), L("b")))), ("a - (2 + x)", ("bin", "Sub", L("a"), ("bin", "Add", N(2), L("x")))), ("3x + 2y", ("bin", "Add", ("bin", "Mul", N(3), L("x")), ("bin", "Mul", N(2), L("y")))),
-               ("a / 2x", ("bin", "Div", L("a"), ("bin", "Mul", N(2), L("x"))))]
+               ("a / 2x", ("bin", "Div", L("a"), ("bin", "Mul", N(2), L("x")))),
+               # a binary minus glued to its operands is still the binary minus, which binds looser than an implicit product
+               ("2(y)-3", ("bin", "Sub", ("bin", "Mul", N(2), L("y")), N(3))), ("(y)-1", ("bin", "Sub", L("y"), N(1))), ("7-2", ("bin", "Sub", N(7), N(2))), ("x-1", ("bin", "Sub", L("x"), N(1))),
+               ("2y-3", ("bin", "Sub", ("bin", "Mul", N(2), L("y")), N(3))), ("2(4)-3", ("bin", "Sub", ("bin", "Mul", N(2), N(4)), N(3))), ("(a)(b)-2", ("bin", "Sub", ("bin", "Mul", L("a"), L("b")), N(2))),
+               ("3-2x", ("bin", "Sub", N(3), ("bin", "Mul", N(2), L("x")))), ("x+1", ("bin", "Add", L("x"), N(1))), ("2x*3", ("bin", "Mul", ("bin", "Mul", N(2), L("x")), N(3))), ("x/2-1", ("bin", "Sub", ("bin", "Div", L("x"), N(2)), N(1)))]
     for text, want in special:
         ast = RT.parse_text("min %s\ns.t.\nx >= 0" % text)
         n += 1
